@@ -217,7 +217,8 @@ func (ex *Exec) exec(g *G, f *Frame, in ssa.Instruction) {
 			arr = (*b.P).(Array)
 		}
 		if idx.T != nil {
-			panic(unsupported{"symbolic index at " + ex.where()})
+			// symbolic index into a slice of concrete length: case-split by forking
+			idx = ex.concretizeIndex(idx, len(arr))
 		}
 		if idx.C < 0 || int(idx.C) >= len(arr) {
 			panic(goPanic{fmt.Sprintf("index out of range [%d] with length %d", idx.C, len(arr))})
@@ -328,6 +329,23 @@ func (ex *Exec) exec(g *G, f *Frame, in ssa.Instruction) {
 	f.pc++
 }
 
+// concretizeIndex forks on the value of a symbolic index: out of range (a
+// panic path, if feasible) or one of 0..n-1.
+func (ex *Exec) concretizeIndex(idx Int, n int) Int {
+	ts := ex.TS
+	bits := int(idx.Bits)
+	inRange := ts.And(ts.BVCmp("bvsge", idx.T, ts.BVC(0, bits)), ts.BVCmp("bvslt", idx.T, ts.BVC(int64(n), bits)))
+	if !ex.decide(inRange) {
+		panic(goPanic{fmt.Sprintf("index out of range [symbolic] with length %d", n)})
+	}
+	for k := 0; k < n-1; k++ {
+		if ex.decide(ts.Eq(idx.T, ts.BVC(int64(k), bits))) {
+			return mkInt(int64(k), bits, idx.Uns)
+		}
+	}
+	return mkInt(int64(n-1), bits, idx.Uns)
+}
+
 func decodeRune(s string) (rune, int) {
 	for i, r := range s {
 		_ = i
@@ -431,11 +449,29 @@ func (ex *Exec) lookup(g *G, x *ssa.Lookup, m, k Value) Value {
 
 func (ex *Exec) sliceOp(f *Frame, x *ssa.Slice) Value {
 	base := ex.reg(f, x.X)
+	limit := 0
+	switch b := base.(type) {
+	case Slice:
+		limit = cap(b.A)
+	case Ptr:
+		if b.P != nil {
+			if a, ok := (*b.P).(Array); ok {
+				limit = len(a)
+			}
+		}
+	case Str:
+		limit = len(b.C)
+	}
 	get := func(v ssa.Value, def int) int {
 		if v == nil {
 			return def
 		}
-		return int(ex.concInt(ex.reg(f, v), "slice bound"))
+		iv := ex.reg(f, v).(Int)
+		if iv.T != nil {
+			// symbolic bound: case-split over 0..limit (out of range = the panic path)
+			iv = ex.concretizeIndex(iv, limit+1)
+		}
+		return int(iv.C)
 	}
 	switch b := base.(type) {
 	case Slice:
